@@ -2,18 +2,21 @@ import ScVerif.C19.Electric
 /-! Lemmas for C19: the inductive invariant of the electric model and its preservation by every operation. -/
 namespace ScVerif.C19
 
-/-- The inductive invariant. -/
-structure Inv (s : St) : Prop where
+variable {p : Mode}
+
+/-- The inductive invariant; `p` is the placeholder active mode the model was configured with
+(`Mode.blank` by default, or the argument of `WithInitialActiveMode`). -/
+structure Inv (p : Mode) (s : St) : Prop where
   /-- mode ids are unique (the collection is a map) -/
   nodup : (s.modes.map (·.id)).Nodup
   /-- I1 (pairwise form): any two normal modes are the same mode -/
   i1 : ∀ x ∈ s.modes, ∀ y ∈ s.modes, x.normal = true → y.normal = true → x = y
   /-- I2/I3: once changed, the active id refers to a stored mode -/
   i3 : s.changed = true → ∃ x ∈ s.modes, x.id = s.active.id
-  /-- before the first change the active mode is the blank dummy -/
-  blank : s.changed = false → s.active = Mode.blank
+  /-- before the first change the active mode is the configured placeholder -/
+  blank : s.changed = false → s.active = p
 
-theorem inv_init : Inv St.init :=
+theorem inv_init : Inv Mode.blank St.init :=
   ⟨by simp [St.init], by simp [St.init], by simp [St.init], by simp [St.init]⟩
 
 /-! ### list helpers -/
@@ -91,7 +94,7 @@ theorem normalMode_none {s : St} (h : normalMode s = none) : ∀ x ∈ s.modes, 
 
 /-! ### preservation, operation by operation -/
 
-theorem createOrAdd_inv {s : St} (hi : Inv s) (m : Mode) (cands : List String) : Inv (createOrAdd s m cands).1 := by
+theorem createOrAdd_inv {s : St} (hi : Inv p s) (m : Mode) (cands : List String) : Inv p (createOrAdd s m cands).1 := by
   unfold createOrAdd
   by_cases hguard : m.normal = true ∧ (normalMode s).isSome = true
   · simp only [hguard, and_self, if_true]; exact hi
@@ -133,7 +136,7 @@ theorem createOrAdd_inv {s : St} (hi : Inv s) (m : Mode) (cands : List String) :
           exact ⟨x, (mem_insertMode _ _ _).mpr (Or.inr hx), hxa⟩
         · exact hi.blank
 
-theorem changeActive_inv {s : St} (hi : Inv s) (id : String) (now : Nat) : Inv (changeActive s id now).1 := by
+theorem changeActive_inv {s : St} (hi : Inv p s) (id : String) (now : Nat) : Inv p (changeActive s id now).1 := by
   unfold changeActive
   split
   · exact hi
@@ -143,13 +146,13 @@ theorem changeActive_inv {s : St} (hi : Inv s) (id : String) (now : Nat) : Inv (
     simp only
     split <;> rfl
 
-theorem changeToNormal_inv {s : St} (hi : Inv s) (now : Nat) : Inv (changeToNormal s now).1 := by
+theorem changeToNormal_inv {s : St} (hi : Inv p s) (now : Nat) : Inv p (changeToNormal s now).1 := by
   unfold changeToNormal
   split
   · exact hi
   · exact changeActive_inv hi _ _
 
-theorem setActive_inv {s : St} (hi : Inv s) (m : Mode) : Inv (setActive s m).1 := by
+theorem setActive_inv {s : St} (hi : Inv p s) (m : Mode) : Inv p (setActive s m).1 := by
   unfold setActive
   split
   · exact hi
@@ -157,7 +160,7 @@ theorem setActive_inv {s : St} (hi : Inv s) (m : Mode) : Inv (setActive s m).1 :
     obtain ⟨hmem, hid⟩ := find_some hx
     exact ⟨hi.nodup, hi.i1, fun _ => ⟨x, hmem, hid⟩, fun h => by simp at h⟩
 
-theorem deleteMode_inv {s : St} (hi : Inv s) (id : String) (am : Bool) : Inv (deleteMode s id am).1 := by
+theorem deleteMode_inv {s : St} (hi : Inv p s) (id : String) (am : Bool) : Inv p (deleteMode s id am).1 := by
   unfold deleteMode
   split
   · exact hi
@@ -181,7 +184,7 @@ theorem mergeMode_normal (old m : Mode) (mask : Option Mask) :
   | none => simp [mergeMode, writesNormal]
   | some k => simp [mergeMode, writesNormal]
 
-theorem updateMode_inv {s : St} (hi : Inv s) (m : Mode) (mask : Option Mask) : Inv (updateMode s m mask).1 := by
+theorem updateMode_inv {s : St} (hi : Inv p s) (m : Mode) (mask : Option Mask) : Inv p (updateMode s m mask).1 := by
   unfold updateMode
   by_cases hguard : m.normal = true ∧ writesNormal mask = true ∧ otherNormal s m.id = true
   · simp only [hguard, and_self, if_true]; exact hi
@@ -240,7 +243,7 @@ theorem updateMode_inv {s : St} (hi : Inv s) (m : Mode) (mask : Option Mask) : I
           · rename_i h; rw [← h]; exact hxa
           · exact hxa
 
-theorem step_inv {s : St} (hi : Inv s) (op : Op) : Inv (step s op).1 := by
+theorem step_inv {s : St} (hi : Inv p s) (op : Op) : Inv p (step s op).1 := by
   cases op with
   | create m cands => simp only [step]; split; exact hi; exact createOrAdd_inv hi m cands
   | add m =>
@@ -256,6 +259,7 @@ theorem step_inv {s : St} (hi : Inv s) (op : Op) : Inv (step s op).1 := by
   | setActive m => exact setActive_inv hi m
   | changeActive id now => exact changeActive_inv hi id now
   | clear now => exact changeToNormal_inv hi now
+  | findMode id => exact hi
   | sCreate m cands => simp only [step]; split; exact hi; exact createOrAdd_inv hi m cands
   | sUpdate m mask => simp only [step]; split; exact hi; exact updateMode_inv hi m mask
   | sDelete id am =>
@@ -269,7 +273,36 @@ theorem step_inv {s : St} (hi : Inv s) (op : Op) : Inv (step s op).1 := by
   | sChangeActive id now => simp only [step]; split; exact hi; exact changeActive_inv hi id now
   | sClear now => exact changeToNormal_inv hi now
 
-theorem run_inv {s : St} (hi : Inv s) (ops : List Op) : Inv (run s ops) := by
+/-- What the configuration must satisfy (the code does not check it): the initial modes have distinct
+ids and at most one of them is normal. -/
+def InitOk (modes : List Mode) : Prop :=
+  (modes.map (·.id)).Nodup ∧ ∀ x ∈ modes, ∀ y ∈ modes, x.normal = true → y.normal = true → x = y
+
+theorem mem_configModes : ∀ (l : List Mode) (x : Mode), x ∈ l.foldr insertMode [] ↔ x ∈ l := by
+  intro l
+  induction l with
+  | nil => intro x; simp
+  | cons a as ih => intro x; simp only [List.foldr_cons, mem_insertMode, ih, List.mem_cons]
+
+theorem nodup_configModes : ∀ (l : List Mode), (l.map (·.id)).Nodup → ((l.foldr insertMode []).map (·.id)).Nodup := by
+  intro l
+  induction l with
+  | nil => intro _; simp
+  | cons a as ih =>
+    intro h
+    simp only [List.map_cons, List.nodup_cons] at h
+    simp only [List.foldr_cons]
+    apply nodup_insertMode _ _ _ (ih h.2)
+    intro x hx e
+    exact h.1 (List.mem_map.mpr ⟨x, (mem_configModes as x).mp hx, e⟩)
+
+/-- A configured initial state satisfies the invariant exactly when the configuration is `InitOk`. -/
+theorem inv_config (modes : List Mode) (active : Mode) (h : InitOk modes) : Inv active (St.config modes active) := by
+  refine ⟨nodup_configModes modes h.1, ?_, by simp [St.config], by simp [St.config]⟩
+  intro x hx y hy
+  exact h.2 x ((mem_configModes modes x).mp hx) y ((mem_configModes modes y).mp hy)
+
+theorem run_inv {s : St} (hi : Inv p s) (ops : List Op) : Inv p (run s ops) := by
   induction ops generalizing s with
   | nil => exact hi
   | cons op ops ih => exact ih (step_inv hi op)
@@ -280,7 +313,7 @@ theorem run_append (s : St) (a b : List Op) : run s (a ++ b) = run (run s a) b :
   | cons x xs ih => simp only [List.cons_append, run, ih]
 
 /-- count form of I1 -/
-theorem normal_count_le_one {s : St} (hi : Inv s) : (s.modes.filter (·.normal)).length ≤ 1 := by
+theorem normal_count_le_one {s : St} (hi : Inv p s) : (s.modes.filter (·.normal)).length ≤ 1 := by
   have hnd : s.modes.Nodup := List.Pairwise.of_map (·.id) (fun a b h e => h (e ▸ rfl)) hi.nodup
   have hf : (s.modes.filter (·.normal)).Nodup := List.Nodup.sublist List.filter_sublist hnd
   have hmem : ∀ z ∈ s.modes.filter (·.normal), z ∈ s.modes ∧ z.normal = true := by
@@ -314,7 +347,7 @@ theorem uniq_of_nodup : ∀ (l : List Mode), (l.map (·.id)).Nodup → ∀ x ∈
     · exact ih hnd.2 x hx y hy hxy
 
 /-- with unique ids, looking a stored mode up by its id finds that mode -/
-theorem find_of_mem {s : St} (hi : Inv s) {m : Mode} (hm : m ∈ s.modes) : find s m.id = some m := by
+theorem find_of_mem {s : St} (hi : Inv p s) {m : Mode} (hm : m ∈ s.modes) : find s m.id = some m := by
   cases hf : find s m.id with
   | none => exact absurd rfl (find_none hf m hm)
   | some z =>
@@ -322,7 +355,7 @@ theorem find_of_mem {s : St} (hi : Inv s) {m : Mode} (hm : m ∈ s.modes) : find
     rw [uniq_of_nodup s.modes hi.nodup z hz m hm hzid]
 
 /-- with I1, `normalMode` returns the normal mode -/
-theorem normalMode_of_mem {s : St} (hi : Inv s) {n : Mode} (hn : n ∈ s.modes) (hnn : n.normal = true) :
+theorem normalMode_of_mem {s : St} (hi : Inv p s) {n : Mode} (hn : n ∈ s.modes) (hnn : n.normal = true) :
     normalMode s = some n := by
   cases hnm : normalMode s with
   | none => have := normalMode_none hnm n hn; rw [hnn] at this; cases this
